@@ -252,6 +252,10 @@ func runPostOps(sc *bw.Scenario, book *simkit.TapeBook, w *world, cl *closure, r
 			if sc.LinkRoots {
 				// the same directory reached through a symbolic link: the caller's root is the link
 				lnk := "/w/bundle-link"
+				if sc.Seed%2 == 1 {
+					// a name outside Latin-1
+					lnk = "/w/\u0441\u0432\u044f\u0437\u043a\u0430"
+				}
 				os.Remove(lnk)
 				if os.Symlink(root, lnk) == nil {
 					b4, err := sourcebundle.OpenDir(lnk)
@@ -262,6 +266,9 @@ func runPostOps(sc *bw.Scenario, book *simkit.TapeBook, w *world, cl *closure, r
 							out.Violate("C09", "reopen-differs", "accessors-through-link", "bundle re-opened by way of a symlink to its directory answers differently relative to the root it was opened by: "+d)
 						}
 						checkLinkedRoot(b4, lnk, out, "C18", "bundle opened by way of a symlink")
+						if err := b4.WriteArchive(io.Discard); err != nil {
+							out.Violate("C09", "archive-fails", "write-through-link", fmt.Sprintf("WriteArchive of a bundle opened by way of the symlink %s fails: %v", lnk, err))
+						}
 					}
 					os.Remove(lnk)
 					out.Probe("reopened-through-link")
